@@ -93,6 +93,25 @@ def fact_send_before_unlock(repo):
     return True, ""
 
 
+def fact_batch_pool(repo):
+    """NewBatcher: freeBatches and fullBatches both have capacity opts.Workers and exactly opts.Workers batches are
+    created into freeBatches (the model's `init.free = workers`; with `batch_pool_conserved` the send under b.mu has room)"""
+    src = open(repo + "/pipeline/batch.go").read()
+    m = re.search(r"func NewBatcher\(.*?\n}\n", src, re.S)
+    if not m:
+        return False, "NewBatcher not found"
+    body = re.sub(r"//[^\n]*", "", m.group(0))
+    if not re.search(r"freeBatches\s*:=\s*make\(chan \*Batch,\s*opts\.Workers\)", body):
+        return False, "freeBatches capacity is not opts.Workers"
+    if not re.search(r"fullBatches\s*:=\s*make\(chan \*Batch,\s*opts\.Workers\)", body):
+        return False, "fullBatches capacity is not opts.Workers"
+    if not re.search(r"for i := 0; i < opts\.Workers; i\+\+ \{\s*freeBatches <- newBatch\(", body):
+        return False, "NewBatcher no longer creates exactly opts.Workers batches"
+    if len(re.findall(r"newBatch\(", src)) != 2:  # the definition and the one call in NewBatcher
+        return False, "newBatch is called outside NewBatcher's loop"
+    return True, ""
+
+
 def fact_append_keeps_start(repo):
     """Batch.append does not touch startTime (model: add_keeps_start); the flush timer starts in reset()"""
     src = open(repo + "/pipeline/batch.go").read()
@@ -142,6 +161,7 @@ CFG = {
               ("updateStatus readiness conditions", fact_update_status),
               ("trySendBatchAndUnlock: channel send precedes mu.Unlock", fact_send_before_unlock),
               ("Batch.append leaves startTime alone", fact_append_keeps_start),
+              ("NewBatcher: both channels have capacity Workers, exactly Workers batches exist", fact_batch_pool),
               ("heartbeat period is the constant 100 ms", fact_heartbeat_period)],
     "rule": "gate-free Stop stress first (6 x 150 rounds of 4-8 concurrent adders, count 1, 2-4 workers, Stop mid-traffic; result ok | panic | unsent-commit), 3 heartbeat-period cases (FlushTimeout 0.6 s .. 1 h, reference clock ticks `k` in the trace: never more than 4 clock ticks without a heartbeat iteration), 5 slow trickles (gap = 1/3..1/5 of a 120-200 ms flush timeout, count limit 1000, zero-size / child / sized events first-last-mixed; oracle = at most timeout/100+4 heartbeat iterations between an event's own append and the seal of its batch), then small scope (workers 1..4 x count 1..5 x byte limits, 1-12 events), then random configurations: workers 1..4, count 0..5, bytes 0..64, event sizes 0..40, kind mixes (regular / child / child-parent, parent-only batches), 1-3 concurrent adders, PRNG order of Add / OutFn release / commit-gate release, Stop at a PRNG position (2/3 of them inside the b.enqueue gate window), 3% with a 3 ms flush timeout and traffic pauses; distinct = distinct case line; non-trivial = at least one batch sealed and committed",
     "corr_name": "Batcher.step? accepts the observed boundary trace and computes the same seq/status/ForEach ids/commit ids",
